@@ -137,8 +137,25 @@ pub fn append_pair<H: HB>(a: &AnyQ<H>, b: &AnyQ<H>, universe: &[u32]) -> Result<
     fn go<Q: QueueLike>(a: &Q, b: &Q, universe: &[u32]) -> Result<(), String> {
         let ma = model_of(&a.snap());
         let mb = model_of(&b.snap());
+        // capacity histories: which side append keeps may depend on the LENGTHS only, so the same
+        // pair is appended with spare capacity on neither side, on the other queue, on the receiver
+        for variant in 0..4 {
+            go1(a, b, &ma, &mb, variant, universe).map_err(|e| if variant == 0 { e } else { format!("{e} [capacity history {variant}: {}]", ["", "other.reserve(64)", "receiver.reserve(64)", "receiver.shrink_to_fit(), other.reserve(64)"][variant]) })?;
+        }
+        Ok(())
+    }
+    fn go1<Q: QueueLike>(a: &Q, b: &Q, ma: &Model, mb: &Model, variant: usize, universe: &[u32]) -> Result<(), String> {
         let mut x = a.clone();
         let mut y = b.clone();
+        match variant {
+            1 => y.q_reserve(64),
+            2 => x.q_reserve(64),
+            3 => {
+                x.q_shrink_to_fit();
+                y.q_reserve(64);
+            }
+            _ => {}
+        }
         let r = catch_unwind(AssertUnwindSafe(|| x.q_append(&mut y)));
         if let Err(e) = r {
             return Err(format!("append panicked: {}", panic_text(&e)));
@@ -149,7 +166,7 @@ pub fn append_pair<H: HB>(a: &AnyQ<H>, b: &AnyQ<H>, universe: &[u32]) -> Result<
             return Err("the appended-from queue still yields elements".into());
         }
         let mut want = ma.clone();
-        for (k, v) in &mb {
+        for (k, v) in mb {
             match want.get(k) {
                 None => {
                     want.insert(*k, *v);
@@ -262,9 +279,28 @@ pub fn eq_cross<H1: HB, H2: HB>(a: &AnyQ<H1>, b: &AnyQ<H2>) -> Result<(), String
 /// `b.clone_from(&a)` on clones of two explored states: the result must be a faithful clone of a.
 pub fn clone_from_pair<H: HB>(a: &AnyQ<H>, b: &AnyQ<H>, universe: &[u32]) -> Result<(), String> {
     fn go<Q: QueueLike>(a: &Q, b: &Q, universe: &[u32]) -> Result<(), String> {
+        // capacity histories of the target: tight (a clone), with spare room, once much longer
+        for variant in 0..3 {
+            go1(a, b, variant, universe).map_err(|e| if variant == 0 { e } else { format!("{e} [target history {variant}: {}]", ["", "reserve(64)", "8 more elements pushed and removed again"][variant]) })?;
+        }
+        Ok(())
+    }
+    fn go1<Q: QueueLike>(a: &Q, b: &Q, variant: usize, universe: &[u32]) -> Result<(), String> {
         let sa = a.snap();
         let ma = model_of(&sa);
         let mut d = b.clone();
+        match variant {
+            1 => d.q_reserve(64),
+            2 => {
+                for i in 0..8u32 {
+                    d.q_push(Item::new(5_000_000 + i, 0), Prio::new(i as i32 % 3));
+                }
+                for i in 0..8u32 {
+                    d.q_remove_b(&Key(5_000_000 + i));
+                }
+            }
+            _ => {}
+        }
         let r = catch_unwind(AssertUnwindSafe(|| d.q_clone_from(a)));
         if let Err(e) = r {
             return Err(format!("clone_from panicked: {}", panic_text(&e)));
